@@ -7,10 +7,8 @@ from units import vmk
 HERE = os.path.dirname(os.path.abspath(__file__))
 UNIT = "U4-plumbing"
 B = "value stack length <= 4 (symbolic contents), frame base <= 6"
-ARMS = ['Pop', 'Duplicate', 'LoadOffset', 'StoreOffset', 'StoreOffsetImm', 'PushNil', 'PushInt', 'PushFloat',
-        'PushBool', 'PushAddr', 'Not', 'EqualBool', 'Jump', 'JumpIf', 'JumpIfFalse', 'Call', 'CallFuncObj',
-        'Return', 'ReturnVoid', 'Stop', 'HostFunc', 'ConstructStruct', 'DeconstructStruct', 'ConstructVariant',
-        'DeconstructVariant', 'GetField', 'SetField', 'MakeClosure']
+ARMS = ['PushNil', 'Call', 'CallFuncObj', 'Return', 'ReturnVoid', 'Stop', 'HostFunc', 'ConstructStruct', 'DeconstructStruct',
+        'ConstructVariant', 'DeconstructVariant', 'GetField', 'SetField', 'MakeClosure']
 
 ENC = ["C01", "C15", "C16", "C24", "C05", "C17", "C26"]   # every unit that assumes the encoding axioms
 STK = ["C01", "C15", "C24", "C05", "C17", "C26", "C10"]   # every unit that assumes the stack-helper contracts
@@ -29,38 +27,23 @@ T = [
          text="nargs < 32, addr <= ADDR_MASK ==> get_nargs/get_addr return what new was given"),
     dict(h="enc_is_pointer_table", id="C01.enc.is_pointer.table", props=["C01", "C06"], fn="ValueTag::is_pointer",
          text="is_pointer is true exactly for Struct, Array, Variant, String, Channel"),
-    dict(h="stack_load_offset_or_top", id="C01.stack.load_offset_or_top.post", props=STK, fn="VmGreenThread::load_offset_or_top", bounded=B,
-         text="requires reg_ok(stack, base, arg); ensures r == reg_val, stack' == reg_after_load, frame  [= contract assumed by the Verus stand-in]"),
-    dict(h="stack_store_offset_or_top", id="C01.stack.store_offset_or_top.post", props=STK, fn="VmGreenThread::store_offset_or_top", bounded=B,
-         text="requires reg_store_ok; ensures stack' == reg_after_store(stack, base, arg, v), frame  [= contract assumed by the Verus stand-in]"),
-    dict(h="stack_typed_store_is_from", id="C01.stack.typed_store.is_from", props=STK, fn="VmGreenThread::store_offset_or_top<impl Into<Value>>", bounded=B,
-         text="store_offset_or_top(Top, x) pushes Value::from(x) for x: i64, bool (justifies rewrite R3)"),
-    dict(h="stack_push_pop_top", id="C01.stack.push_pop_top.post", props=["C01", "C11"], fn="VmGreenThread::{push,pop,top,set_top}", bounded=B,
-         text="push appends; top reads last; set_top replaces last; pop removes and returns last; nothing else changes"),
-    dict(h="stack_load_store_offset", id="C01.stack.load_store_offset.post", props=["C01"], fn="VmGreenThread::{load_offset,store_offset}", bounded=B,
-         text="0 <= base+off < len ==> load_offset reads / store_offset writes exactly slot base+off"),
-    dict(h="arm_pop_duplicate", id="C01.vm.Pop_Duplicate.post", props=["C01", "C05"], fn="step arms Pop, Duplicate", bounded=B, text="Duplicate pushes a copy of top; Pop removes it; frame"),
-    dict(h="arm_load_store_offset", id="C01.vm.LoadOffset_StoreOffset.post", props=["C01", "C05"], fn="step arms LoadOffset, StoreOffset, StoreOffsetImm", bounded=B,
-         text="LoadOffset(n) pushes local n; StoreOffset(n) pops into local n; StoreOffsetImm(n,k) writes int constant k into local n"),
-    dict(h="arm_push_constants", id="C01.vm.Push_constants.post", props=["C01", "C05", "C30"], fn="step arms PushInt, PushFloat, PushBool, PushAddr", bounded=B,
-         text="each pushes exactly the constant-table entry / immediate it names (floats bit-identical)"),
-    dict(h="arm_push_nil", id="C01.vm.PushNil.post", props=["C01", "C05"], fn="step arm PushNil", bounded="n <= 3, stack <= 4", text="PushNil(n) pushes exactly n values"),
-    dict(h="arm_not_equalbool", id="C24.vm.Not_EqualBool.post", props=["C24", "C01", "C05"], fn="step arms Not, EqualBool", text="EqualBool stores a == b; Not stores !a (all four bool pairs)"),
-    dict(h="arm_jumps", id="C01.vm.Jumps.post", props=["C01", "C05"], fn="step arms Jump, JumpIf, JumpIfFalse", text="JumpIf jumps iff popped bool is true; JumpIfFalse iff false; Jump always; exactly one pop each"),
-    dict(h="arm_call_return", id="C01.vm.Call_Return.stack_discipline", props=["C01", "C23"], fn="step arms Call, Return", bounded="nargs <= 2, caller operands <= 1, callee leftovers <= 2",
+    dict(h="stack_typed_store_is_from", id="C01.stack.typed_store.is_from", props=STK, fn="VmGreenThread::{store_offset_or_top,push,store_offset}<impl Into<Value>>",
+         text="store_offset_or_top(Top, x) / push(x) / store_offset(n, x) store Value::from(x) for x: i64, bool, f64 (justifies rewrite R3 of the Verus units)"),
+    dict(h="arm_push_nil", id="C01.vm.PushNil.post", props=["C01", "C05"], fn="step arm PushNil", bounded="n in {0, 3}", text="PushNil(n) pushes exactly n values"),
+    dict(h=["arm_call_return_a", "arm_call_return_b", "arm_call_return_c"], id="C01.vm.Call_Return.stack_discipline", props=["C01", "C23"], fn="step arms Call, Return", bounded="shapes (nargs, caller operands, callee leftovers) in {(0,0,0), (2,1,2), (1,1,0)}; the general statement is u4a_ctrl's Verus obligation",
          text="Return(n) restores pc/base, leaves caller operands + exactly one result (= callee top) whatever number of operands the callee left"),
-    dict(h="arm_call_return_void", id="C01.vm.Call_ReturnVoid.stack_discipline", props=["C01", "C23"], fn="step arms Call, ReturnVoid", bounded="nargs <= 2, callee leftovers <= 2",
+    dict(h=["arm_call_return_void_a", "arm_call_return_void_b"], id="C01.vm.Call_ReturnVoid.stack_discipline", props=["C01", "C23"], fn="step arms Call, ReturnVoid", bounded="shapes (nargs, leftovers) in {(0,0), (2,2)}",
          text="ReturnVoid restores pc/base and leaves exactly the caller's operands"),
-    dict(h="arm_construct_deconstruct_struct", id="C01.vm.Struct.construct_get_deconstruct", props=["C01", "C14"], fn="step arms ConstructStruct, GetField, DeconstructStruct", bounded="n <= 3 fields",
+    dict(h=["arm_construct_deconstruct_struct_0", "arm_construct_deconstruct_struct_1", "arm_construct_deconstruct_struct_3"], id="C01.vm.Struct.construct_get_deconstruct", props=["C01", "C14"], fn="step arms ConstructStruct, GetField, DeconstructStruct", bounded="n in {0, 1, 3} fields",
          text="field i is the i-th pushed value; DeconstructStruct pushes fields so that field 0 ends on top"),
     dict(h="arm_set_field", id="C01.vm.SetField.post", props=["C01"], fn="step arm SetField", bounded="2 fields", text="SetField writes exactly field idx; other field unchanged; consumes struct operand and rvalue"),
     dict(h="arm_variant", id="C01.vm.Variant.construct_deconstruct", props=["C01", "C14"], fn="step arms ConstructVariant, DeconstructVariant", text="DeconstructVariant leaves payload then tag (as int)"),
-    dict(h="arm_closure_call", id="C01.vm.MakeClosure_CallFuncObj.post", props=["C01", "C19"], fn="step arms MakeClosure, CallFuncObj", bounded="<= 2 captures",
+    dict(h=["arm_closure_call_0", "arm_closure_call_2"], id="C01.vm.MakeClosure_CallFuncObj.post", props=["C01", "C19"], fn="step arms MakeClosure, CallFuncObj", bounded="0 or 2 captures",
          text="MakeClosure snapshots [addr, captures..]; CallFuncObj jumps to addr, opens a frame above the arguments and lays the captures out as the first locals"),
     dict(h="arm_stop_hostfunc", id="C11.vm.Stop_HostFunc.post", props=["C11", "C01", "C10"], fn="step arms Stop, HostFunc", text="HostFunc(e) sets pending_host_func = e and nothing else, returns false; Stop sets done, returns false"),
 ]
 for r in T:
-    r['h'] = "vm::u4::" + r['h']
+    r['h'] = ["vm::u4::" + h for h in r['h']] if isinstance(r['h'], list) else "vm::u4::" + r['h']
 
 
 def run(tier="quick"):
